@@ -861,7 +861,7 @@ func runSeq(p Profile, seed uint64, cas int) *SeqRes {
 		if op != nil {
 		} else if p.Recycle && rng.Intn(25) == 0 {
 			op = s.sparseBurst()
-		} else if p.NearFull && (p.AfterFail || p.TwinEvery > 0 || p.FsckEvery > 0) && rng.Intn(5) < 2 {
+		} else if p.NearFull && (p.AfterFail || p.TwinEvery > 0 || p.FsckEvery > 0 || p.ZeroScan) && rng.Intn(5) < 2 {
 			op = s.genSteer()
 		} else if p.Recycle && rng.Intn(3) == 0 {
 			op = s.genRecycle()
